@@ -1,12 +1,13 @@
 use crate::runtime::list::get_access_addr;
 use crate::runtime::utilities::{next_ref, push_unit};
-use garnish_lang_traits::{GarnishData, GarnishDataType, Instruction, RuntimeError};
+use garnish_lang_traits::{ErrorType, GarnishData, GarnishDataType, Instruction, RuntimeError};
 
 pub fn access<Data: GarnishData>(this: &mut Data) -> Result<Option<Data::Size>, RuntimeError<Data::Error>> {
     let right_addr = next_ref(this)?;
     let left_addr = next_ref(this)?;
 
-    match (this.get_data_type(left_addr.clone())?, this.get_data_type(right_addr.clone())?) {
+    let types = (this.get_data_type(left_addr.clone())?, this.get_data_type(right_addr.clone())?);
+    match types {
         (GarnishDataType::Symbol, GarnishDataType::Symbol)
         | (GarnishDataType::Symbol, GarnishDataType::SymbolList)
         | (GarnishDataType::SymbolList, GarnishDataType::Symbol)
@@ -28,9 +29,17 @@ pub fn access<Data: GarnishData>(this: &mut Data) -> Result<Option<Data::Size>, 
         | (GarnishDataType::Concatenation, GarnishDataType::Number)
         | (GarnishDataType::Concatenation, GarnishDataType::Symbol)
         | (GarnishDataType::Slice, GarnishDataType::Number)
-        | (GarnishDataType::Slice, GarnishDataType::Symbol) => match get_access_addr(this, right_addr, left_addr)? {
-            None => push_unit(this)?,
-            Some(i) => this.push_register(i)?,
+        | (GarnishDataType::Slice, GarnishDataType::Symbol) => match get_access_addr(this, right_addr.clone(), left_addr.clone()) {
+            Ok(None) => push_unit(this)?,
+            Ok(Some(i)) => this.push_register(i)?,
+            // the accessors do not support this pair after all (e.g. a symbol on a char list)
+            // offer it to the host like any other undefined combination
+            Err(e) if e.get_type() == ErrorType::UnsupportedOpTypes => {
+                if !this.defer_op(Instruction::Access, (types.0, left_addr), (types.1, right_addr))? {
+                    push_unit(this)?
+                }
+            }
+            Err(e) => Err(e)?,
         },
         (l, r) => {
             if !this.defer_op(Instruction::Access, (l, left_addr), (r, right_addr))? {
